@@ -17,7 +17,7 @@ globals().update(make(
     'distinct = SHA-1 of the canonical spec JSON.',
     lambda mon, case: mon.c['records'] >= 50 and len([k for k in mon.env.simulation_data if mon.env.simulation_data[k]]) >= 3,
     lambda mon, case: (['traced'] if mon.trace_on else []) + (['traced-with-work-order'] if mon.trace_on and mon.m.wo_started else []),
-    quick=(300, 4), thorough=(1500, 16), trace_p=0.25))
+    quick=(300, 4), thorough=(1500, 16), trace_p=0.25, noisy_p=0.3))
 
 
 # "... and schedule record per corresponding occurrence": ActionSchedulers do not occur in E3 models, so a second phase
